@@ -142,10 +142,10 @@ func init() {
 	register(&Prop{
 		ID:    "C18",
 		Level: "exploration",
-		Rule:  "case = (canonical key-pinning WHERE shape with its literals from the alphabet {a,b,c} up to length 3, optional opaque value conjunct on either side, optional second pinning conjunct, store, batch size, drain mode). The invariant is evaluated over the simulated storage's read trace: every Get key lies in the union of the pinning conjuncts' closed regions; per end detection (delimited by caller polls and by write calls) at most two cursor keys lie outside it, and none inside it is read after one outside; no cursor key lies below the region start; =/IN shapes (alone, with an opaque conjunct, or with a prefix/range conjunct containing all their keys) issue no cursor Next at all and Get-read every surviving key; clauses unsatisfiable on their face issue no Get and no Next. quick samples; thorough enumerates all literal choices per shape. distinct_nontrivial counts distinct (shape tuple, literal tuple, opaque position, mode, batch) with at least one storage read or an unsatisfiable verdict. quick also draws: byte-level alphabets (8 %: literals and keys relabelled to bytes such as 0x00, 0x7f, 0x80, 0xfe, 0xff), key lists of 65..300 literals with batch sizes 64..1000, literals and keys of 70..300 bytes, chains of 20..300 opaque conjuncts around the pinning ones, a LIMIT above the pinned scan (12 %: offsets beyond the number of matching rows, counts below it).",
+		Rule:  "case = (canonical key-pinning WHERE shape with its literals from the alphabet {a,b,c} up to length 3, optional opaque value conjunct on either side, optional second pinning conjunct, store, batch size, drain mode). The invariant is evaluated over the simulated storage's read trace: every Get key lies in the union of the pinning conjuncts' closed regions; per end detection (delimited by caller polls and by write calls) at most two cursor keys lie outside it (one per plan node for plans of more than two nodes), and none inside it is read after one outside; no cursor key lies below the region start; =/IN shapes (alone, with an opaque conjunct, or with a prefix/range conjunct containing all their keys) issue no cursor Next at all and Get-read every surviving key; clauses unsatisfiable on their face issue no Get and no Next. quick samples; thorough enumerates all literal choices per shape. distinct_nontrivial counts distinct (shape tuple, literal tuple, opaque position, mode, batch) with at least one storage read or an unsatisfiable verdict. quick also draws: byte-level alphabets (8 %: literals and keys relabelled to bytes such as 0x00, 0x7f, 0x80, 0xfe, 0xff), key lists of 65..300 literals with batch sizes 64..1000, literals and keys of 70..300 bytes, chains of 20..300 opaque conjuncts around the pinning ones, a LIMIT above the pinned scan (12 %: offsets beyond the number of matching rows, counts below it).",
 		Assumptions: []string{
 			"closed bounds: reading the literal key itself for > and < is not a violation",
-			"'at most one key beyond the end' is read per end detection: up to two keys beyond the region are tolerated per segment (caller poll, or stretch between two write calls), because a plan that drains its child in a loop detects the end when it gets the last rows and again when it gets nothing; the whole-statement count is recorded as a number, not judged",
+			"'at most one key beyond the end' is read per end detection: the scans keep no end-of-range state, so every time a finished scan is asked again it reads one more key. A plan detects the end when it gets the last rows and again when it gets nothing, and every draining node above the scan (LIMIT, DELETE, ORDER BY) may ask once more within one caller poll: tolerated per segment (caller poll, or stretch between two write calls) are two keys beyond the region, or as many as the plan has nodes if that is more; the whole-statement count is recorded as a number, not judged. A scan that does not stop at the region's end reads every remaining key of the store",
 			"creating a cursor (and seeking) without reading from it is tolerated",
 			"for a conjunction the allowed set is the union of its pinning conjuncts' regions ('one of its conjuncts')",
 		},
@@ -312,8 +312,8 @@ func genC18Case(r *Rng, i int, tier string, bytesProb float64) *Scenario {
 			switch s.Shape {
 			case "in":
 				n := r.Range(1, 4)
-				if r.Chance(0.01) {
-					n = pick(r, []int{65, 256, 300})
+				if r.Chance(0.04) {
+					n = pick(r, []int{65, 130, 256, 300})
 				}
 				for j := 0; j < n; j++ {
 					a.Lits = append(a.Lits, pick(r, lits))
@@ -390,7 +390,7 @@ func genC18Case(r *Rng, i int, tier string, bytesProb float64) *Scenario {
 	mode := genMode(r)
 	sc := &Scenario{Cfg: Config{Batch: pickBatch(r), Cache: r.Bool(), Alias: r.Chance(0.3), Lazy: r.Chance(0.3)}, Init: c18Store(r), K: &pc}
 	for i := range pc.Atoms {
-		if len(pc.Atoms[i].Lits) > 4 && r.Bool() {
+		if len(pc.Atoms[i].Lits) > 4 && r.Chance(0.7) {
 			// long key lists meet large batch sizes
 			sc.Cfg.Batch = pick(r, []int{64, 128, 129, 256, 1000})
 		}
@@ -449,7 +449,7 @@ func genC18Case(r *Rng, i int, tier string, bytesProb float64) *Scenario {
 
 // pinVerdict evaluates the trace invariant for the events of one statement.
 // It is also used as a monitor on faulted runs (prefix-closed).
-func pinVerdict(pc *PinCase, evs []Event, complete bool) (kind, detail string) {
+func pinVerdict(pc *PinCase, evs []Event, complete bool, planNodes int) (kind, detail string) {
 	if len(evs) > 0 && !complete {
 		// a faulted trace: the failed call returned nothing and is not judged itself
 		trimmed := make([]Event, 0, len(evs))
@@ -600,10 +600,16 @@ func pinVerdict(pc *PinCase, evs []Event, complete bool) (kind, detail string) {
 		// does not remember exhaustion detects the end once when it returns its
 		// last rows and once more when it is asked again and returns nothing; a
 		// plan that drains its child in a loop (DELETE, ORDER BY, LIMIT) does
-		// both inside one caller poll. Two are therefore tolerated per segment;
-		// a scan that does not stop at the region's end reads more.
-		if n > 2 {
-			return "scan-beyond-region", fmt.Sprintf("segment %d read %d keys outside the pinned region (one is needed to detect its end, two if the end is detected again)", poll, n)
+		// both inside one caller poll, and every further draining node above it
+		// (DELETE over LIMIT over a scan) may ask once more. Tolerated per segment:
+		// two, or one per plan node if the plan is deeper; a scan that does not
+		// stop at the region's end reads every remaining key of the store.
+		tolerated := 2
+		if planNodes > tolerated {
+			tolerated = planNodes
+		}
+		if n > tolerated {
+			return "scan-beyond-region", fmt.Sprintf("segment %d read %d keys outside the pinned region (one is needed to detect its end, one more each time a draining plan node asks again: at most %d for this plan)", poll, n, tolerated)
 		}
 		li := lastNextInPoll[poll]
 		if allowed(evs[li].Key) {
@@ -699,7 +705,7 @@ func runC18(sc *Scenario, st *Stats) []Violation {
 		st.Inc("statements_reading_2+_keys_beyond_region_overall")
 	}
 	st.Sample(map[string]any{"statement": pc.Text(), "mode": r.Mode, "batch": sc.Cfg.Batch, "store_pairs": len(sc.Init), "plan": r.Explain, "reads": len(evs)}, 4)
-	kind, detail := pinVerdict(pc, evs, r.Completed)
+	kind, detail := pinVerdict(pc, evs, r.Completed, len(r.Explain))
 	if kind != "" {
 		return []Violation{{Prop: "C18", Kind: kind,
 			Detail: detail + " | statement: " + pc.Text() + " | plan: " + strings.Join(r.Explain, " > "),
@@ -732,7 +738,7 @@ func runC18(sc *Scenario, st *Stats) []Violation {
 		fevs := wf.H.log[fr.EvFrom:fr.EvTo]
 		fop := wf.H.log[pos].Op
 		st.Inc("faulted_traces_monitored")
-		if k, d := pinVerdict(pc, fevs, false); k != "" {
+		if k, d := pinVerdict(pc, fevs, false, len(r.Explain)); k != "" {
 			v := Violation{Prop: "C18", Kind: k,
 				Detail: fmt.Sprintf("after an injected error on %s (call #%d): %s | statement: %s | plan: %s", fop, pos, d, pc.Text(), strings.Join(r.Explain, " > ")),
 				Sig:    fmt.Sprintf("shapes=%v opaque=%s mode=%s plan=%s fault-on=%s", shapes, op, r.Mode, planShape(r.Explain), fop)}
